@@ -524,6 +524,7 @@ func interpretContainerMethod(info *types.Info, fd *ast.FuncDecl, methods map[st
 	}
 	propsAliases = map[types.Object]bool{}
 	defer func() { propsAliases = nil }()
+	var lenIs types.Object              // a local that equals the length of the list: what `p = p[:n]` last truncated it to
 	pendingTrunc := false               // a local alias was truncated and not yet stored back
 	elemAt := map[types.Object]string{} // locals holding an element of the list -> the slot it sits in now
 	d := &dirtyState{from: map[string]bool{}, points: map[string]bool{}}
@@ -796,6 +797,10 @@ func interpretContainerMethod(info *types.Info, fd *ast.FuncDecl, methods map[st
 								continue
 							}
 							delete(d.points, "last")
+							lenIs = nil
+							if hid, ok := r.High.(*ast.Ident); ok {
+								lenIs = info.ObjectOf(hid) // from here on this local is the length of the list
+							}
 							continue
 						}
 						undecided = append(undecided, "unrecognised reslice of properties")
@@ -942,6 +947,9 @@ func interpretContainerMethod(info *types.Info, fd *ast.FuncDecl, methods map[st
 					if be, ok := s.Cond.(*ast.BinaryExpr); ok && be.Op == token.LSS && iv != nil && isIdentNamed(be.X, iv.Name) {
 						c := xs(be.Y)
 						okCond = c == "this.Len()" || c == "len(this.properties)"
+						if yid, ok := be.Y.(*ast.Ident); ok && lenIs != nil && info.ObjectOf(yid) == lenIs {
+							okCond = true
+						}
 					}
 					okPost := false
 					if inc, ok := s.Post.(*ast.IncDecStmt); ok && inc.Tok == token.INC && iv != nil && isIdentNamed(inc.X, iv.Name) {
